@@ -301,10 +301,65 @@ pub fn gen(tier: &str, seed: u64) -> Vec<String> {
             }
         }
     }
+    // (3b) capacity of one case: `parse_switch_case_bool` (parser/src/cfg/switch.rs) refuses an item
+    // once more than MAX_OPCODE_LEN = 4095 opcodes are stored (l.60-64, checked on entry of every
+    // item) and refuses an operator list that ends beyond it (l.283-285).  Item lists and operator
+    // lists with 4093..4098 one-opcode items, and the same with two-opcode items (`input`, `layer`)
+    // so that the limit is crossed in the middle of an item; the environment decides the firing of
+    // the accepted ones.
+    lines.extend(gen_capacity(&mut r, thorough));
     // (4) layout level: fork and switch read "active keys" from the layout's states, whoever holds
     // the key there: a physical key, an output chord, a multi, a one-shot, a decided tap-hold, a
     // virtual key, or a running macro.  KAN lines, run through the kanata-level model.
     lines.extend(gen_layout_level(&mut r, thorough));
+    lines
+}
+
+fn gen_capacity(r: &mut Rng, thorough: bool) -> Vec<String> {
+    let mut lines = vec![];
+    let rounds = if thorough { 4 } else { 1 };
+    for _ in 0..rounds {
+        for n in 4093usize..=4098 {
+            let k = r.below(KEYS.len() as u64) as usize;
+            let other = (k + 1 + r.below(KEYS.len() as u64 - 1) as usize) % KEYS.len();
+            let one: Vec<E> = (0..n).map(|_| E::Key(k)).collect();
+            // two-opcode items: n opcodes in total (plus one one-opcode item when n is odd)
+            let two_kind = r.below(3);
+            let mut two: Vec<E> = (0..n / 2)
+                .map(|_| match two_kind {
+                    0 => E::InputReal(k),
+                    1 => E::Layer(1),
+                    _ => E::InputVirt(0),
+                })
+                .collect();
+            if n % 2 == 1 {
+                two.insert(r.below(two.len() as u64 + 1) as usize, E::Key(k));
+            }
+            for items in [one, two] {
+                for held in [true, false] {
+                    let env = Env {
+                        ak: if held { vec![kc(k)] } else { vec![kc(other)] },
+                        ac: if held { vec![(0, kc(k)), (1, 0)] } else { vec![] },
+                        hk: vec![],
+                        hc: vec![],
+                        ly: if held { vec![1] } else { vec![] },
+                        dl: 0,
+                    };
+                    // the items directly in the case list (implicit and)
+                    lines.push(case_line(&[(true, items.clone())], &env));
+                    // inside an operator list: the operator's own opcode comes on top
+                    let op = r.below(3) as u8;
+                    let mut inner = items.clone();
+                    inner.pop();
+                    lines.push(case_line(&[(true, vec![E::Node(op, inner.clone())])], &env));
+                    lines.push(case_line(&[(true, vec![E::Node(op, items.clone())])], &env));
+                    // a second case after the long one, and a long one after a short one
+                    lines.push(case_line(&[(false, items.clone()), (true, vec![E::Key(k)])], &env));
+                    lines.push(case_line(&[(true, vec![E::Key(other)]), (true, vec![E::Node(0, vec![E::Key(other), E::Node(1, inner)])])], &env));
+                }
+            }
+        }
+    }
     lines
 }
 
